@@ -112,6 +112,11 @@ def run(ctx):
 
     ctx.add_eval(latency.rc_latency_oracle(ctx, cases, 12 if ctx.quick else 150,
                                            "oracle: the collected format-constraint expression does not depend on how long the single asynchronous evaluators take"))
+    # ... and the collected expression, fed to format_constraint_evaluation with format-constraint evaluators of different latencies, has the value of the reading
+    collected = sorted({(v.format_constraints_expression, tuple(k for k in exprs.leaves(t) if exprs.kind(k) == "fc")) for (t, rho), (tag, v) in zip(cases, raws)
+                        if tag == "ok" and getattr(v, "format_constraints_expression", None)}, key=lambda x: (-len(set(x[1])), x[0]))
+    ctx.add_eval(latency.fc_latency_oracle(ctx, [(e, list(ks)) for e, ks in collected], "oracle: the collected expression, evaluated by format-constraint evaluators that "
+                                           "really suspend, has the Boolean value of its reading", n_max=10 if ctx.quick else 120))
     return finish(ctx, assumptions=["interpretation S1 of the direct reading (DESIGN.md section 7)",
                                     "the string-level builder equals `render` of the token-level builder: established by correspondence (character by character), not by a theorem"])
 
